@@ -51,10 +51,17 @@ pub enum Op {
     /// a whole stream life: half a window of data, read, the rest with FIN, read to the end
     /// (expands to four primitive operations; the stream's slot in the endpoint is recycled)
     Whole(u8),
+    /// datagrams of mixed sizes: four of a fifth of the buffer, then one of three fifths
+    /// (expands to five DATAGRAM frames; the newcomer needs more room than one eviction frees)
+    DFill,
 }
 
 fn expand(l: &Lim, op: &Op) -> Vec<Op> {
     match op {
+        Op::DFill => {
+            let b = l.dgram_buf;
+            vec![Op::D(b / 5), Op::D(b / 5), Op::D(b / 5), Op::D(b / 5), Op::D(3 * b / 5)]
+        }
         Op::Whole(slot) => {
             let h = l.stream_window / 2;
             vec![Op::S(*slot, 0, h, false), Op::Read(*slot, usize::MAX), Op::S(*slot, h, 5, true), Op::Read(*slot, usize::MAX)]
@@ -118,6 +125,7 @@ pub fn alphabet(l: &Lim) -> Vec<Op> {
     v.push(Op::D(10));
     v.push(Op::D(l.dgram_buf));
     v.push(Op::D(l.dgram_buf + 1));
+    v.push(Op::DFill);
     v.push(Op::RecvDgram);
     v.push(Op::C(100, 10));
     v.push(Op::C(16 * 1024 - 5, 5));
@@ -505,7 +513,7 @@ pub fn run_seq(base: Instant, l: &Lim, vs: bool, seq: &[Op], dump: bool) -> Resu
                     p.w.settle_conn(victim, vch);
                     m.conc_max[1] = m.conc_max[1].max(*n);
                 }
-                Op::Whole(_) => unreachable!("expanded before execution"),
+                Op::Whole(_) | Op::DFill => unreachable!("expanded before execution"),
                 Op::RecvDgram => {
                     let mut sizes = vec![];
                     {
@@ -525,6 +533,13 @@ pub fn run_seq(base: Instant, l: &Lim, vs: bool, seq: &[Op], dump: bool) -> Resu
             while p.w.net.iter().any(|f| f.injected) && g < 50 {
                 g += 1;
                 p.w.step();
+            }
+            // unread datagrams held for the application never exceed the configured buffer
+            if let Some(sl) = p.w.slot(victim, vch) {
+                let held = sl.conn.verif_probe().datagram_recv_buffered;
+                if held > m.dgram_buf {
+                    viol.push(("datagram-buffer-exceeded".into(), format!("step {step} {op:?}: {held} bytes of unread datagrams are buffered, datagram_receive_buffer_size is {}", m.dgram_buf)));
+                }
             }
             // decode what the victim advertised since the last step
             for r in &p.w.recs[rec_pos..] {
